@@ -33,6 +33,14 @@ def build_only(crate):
         raise ToolFailure('generated crate %s does not compile:\n%s' % (crate, (p.stdout + p.stderr)[-4000:]))
 
 
+def _limit_memory():
+    # one runaway CBMC must not take the machine down (62 GB, no swap): cap the address space of every process
+    # of the run at 32 GiB; Kani then reports the harness as out of memory (= undecided), never as a failure
+    import resource
+    lim = 32 << 30
+    resource.setrlimit(resource.RLIMIT_AS, (lim, lim))
+
+
 def run(crate, harnesses, jobs=16, harness_timeout=900, total_timeout=3600, prefix='', extra=None, tag='run'):
     """harnesses: list of fully qualified harness names (prefix added).  Returns
     dict name -> dict(status, seconds, checks=[...], stats={...})."""
@@ -50,7 +58,7 @@ def run(crate, harnesses, jobs=16, harness_timeout=900, total_timeout=3600, pref
     with open(log, 'w') as lf:
         try:
             p = subprocess.run(cmd, cwd=crate, env=env_offline(), stdout=lf, stderr=subprocess.STDOUT,
-                               timeout=total_timeout)
+                               timeout=total_timeout, preexec_fn=_limit_memory)
         except subprocess.TimeoutExpired:
             raise ToolFailure('cargo kani exceeded %ds on %s' % (total_timeout, crate))
     wall = time.time() - t0
